@@ -10,8 +10,9 @@ Driver of C06.
 `which` ∈ serial | events (the operational walkdir / WalkEventIter / Walk::next model) | parallel | reach | guard.  Nodes: `(f name size)`, `(d name ino dev (ign n…) kids…)`,
 `(l name len -)`, `(l name len (f size))`, `(l name len (d ino))`.  `forest` is the whole file system the
 roots live in (links may point anywhere in it); `roots` the paths given to the walker.
-Ignore rule of the harness: an entry is ignored iff its name is listed in the ignore file of an entered
-ancestor; filter: rejects the listed names.  Reply: the reported items sorted, `e:1/2/3` entries,
+Ignore rules of the harness (gitignore semantics for the patterns `name`, `*`, `!name`, `!*`, coded 2n / 2n+1
+with n = 0 for `*`): the innermost entered directory whose ignore file has a matching pattern decides, within a
+file the last matching pattern; filter: rejects the listed names.  Reply: the reported items sorted, `e:1/2/3` entries,
 `L:…` loop errors, `B:…` broken-link errors (order is not part of the property); duplicates are kept.
 -/
 namespace RgVerif.Driver.C06
@@ -48,7 +49,12 @@ def parseCfg (xs : List Sx) : Option Cfg := do
       let ns ← ns.mapM Sx.nat?
       pure (some fun p _ => !(ns.contains (p.getLast?.getD 0)))
   pure { maxDepth := depth, maxFilesize := size, followLinks := follow, sameFs := samefs,
-         ignored := fun igns name _ => igns.any (fun l => l.contains name),
+         -- ignore files: innermost directory first; within a file the last matching pattern decides;
+         -- pattern code 2·n = name n, 2·n+1 = `!`name n (whitelist), n = 0 stands for `*`
+         ignored := fun igns name _ =>
+           let verdict (l : List Nat) : Option Bool :=
+             (l.reverse.find? (fun c => c / 2 == 0 || c / 2 == name)).map (fun c => c % 2 == 0)
+           (igns.findSome? verdict).getD false,
          filter := filter }
 
 def pathStr (p : Path) : String := "/".intercalate (p.map toString)
